@@ -4,6 +4,9 @@ import TapkeeVerif.Props.C02
 import TapkeeVerif.Props.C04
 import TapkeeVerif.Proofs.Spectral
 import TapkeeVerif.Proofs.Equivariance
+import TapkeeVerif.Model.Mds
+import TapkeeVerif.Model.Pca
+import TapkeeVerif.Model.IsomapPre
 /-!
 # C12 (second module) — the other properties' theorems transported along a re-ordering of the samples
 
@@ -254,5 +257,116 @@ theorem isEigSys_iff_isEigSystem (B : Mat n n K) (V : Mat n d K) (lam : Vec d K)
       exact this
 
 end bridge
+
+/-! ## the stage models of C04 / C05 / C06 under a re-ordering of the samples
+
+`Model/Center.lean`, `Model/Mds.lean` (C05), `Model/Pca.lean` (C06) and `Model/IsomapPre.lean` (C04; a fold over the
+statement list `Gen/IsomapSteps.lean` regenerated from `methods/isomap.hpp`) are independent transcriptions of the
+same source lines as `Model/Equivariance.lean`: they agree with it, hence inherit its equivariance. -/
+
+section stages
+open TapkeeVerif.Equivariance
+variable {K : Type} [Field K] {n N D : Nat}
+
+theorem center_c05_eq (A : Mat n n K) : TapkeeVerif.centerMatrix A = Equivariance.centerMatrix A := by
+  funext i j
+  simp only [TapkeeVerif.centerMatrix, TapkeeVerif.centerWith, TapkeeVerif.colMeans, TapkeeVerif.grandMean,
+    Equivariance.centerMatrix, Equivariance.centerWith, Equivariance.colMean, Equivariance.grandMean, Nat.cast_mul]
+
+/-- C05's MDS pre-matrix (Model/Mds.lean) for re-ordered samples is the relabelled one -/
+theorem mdsPre_c05_perm (π : Equiv.Perm (Fin n)) (δ : Fin n → Fin n → K) (hsym : ∀ i j, δ i j = δ j i) :
+    TapkeeVerif.mdsPre (relabelFn π δ) = relabel π (TapkeeVerif.mdsPre δ) := by
+  have hsq : ∀ δ' : Fin n → Fin n → K, TapkeeVerif.sqDistMatrix δ' = Equivariance.sqDistMatrix δ' := by
+    intro δ'
+    funext i j
+    simp only [TapkeeVerif.sqDistMatrix, Equivariance.sqDistMatrix, Fin.le_def]
+  funext i j
+  simp only [TapkeeVerif.mdsPre, TapkeeVerif.scale, center_c05_eq, hsq]
+  rw [sqDistMatrix_relabel π δ hsym, centerMatrix_relabel]
+  rfl
+
+/-- C05's Kernel PCA pre-matrix likewise -/
+theorem kpcaPre_c05_perm (π : Equiv.Perm (Fin n)) (κ : Fin n → Fin n → K) (hsym : ∀ i j, κ i j = κ j i) :
+    TapkeeVerif.kpcaPre (relabelFn π κ) = relabel π (TapkeeVerif.kpcaPre κ) := by
+  have hk : ∀ κ' : Fin n → Fin n → K, TapkeeVerif.kernelMatrix κ' = Equivariance.kernelMatrix κ' := by
+    intro κ'
+    funext i j
+    simp only [TapkeeVerif.kernelMatrix, Equivariance.kernelMatrix, Fin.le_def]
+  simp only [TapkeeVerif.kpcaPre, center_c05_eq, hk]
+  rw [kernelMatrix_relabel π κ hsym, centerMatrix_relabel]
+
+/-- C06: the mean and the covariance matrix PCA hands to the eigensolver do not depend on the sample order -/
+theorem pcaPre_c06_perm (π : Equiv.Perm (Fin N)) (X : Mat N D K) :
+    TapkeeVerif.pcaPre (permRows π X) = TapkeeVerif.pcaPre X := by
+  have hmean : TapkeeVerif.computeMean (permRows π X) = TapkeeVerif.computeMean X := by
+    funext a
+    unfold TapkeeVerif.computeMean permRows
+    rw [sumFin_perm π (fun i => X i a)]
+  have hup : ∀ μ : Vec D K, TapkeeVerif.covarianceUpper (permRows π X) μ = TapkeeVerif.covarianceUpper X μ := by
+    intro μ
+    funext a b
+    unfold TapkeeVerif.covarianceUpper permRows
+    rw [sumFin_perm π (fun i => X i a * X i b)]
+  unfold TapkeeVerif.pcaPre TapkeeVerif.covarianceMatrix
+  rw [hmean, hup]
+
+/-- C06: PCA subtracts the mean — translating every sample leaves the covariance matrix unchanged -/
+theorem pcaPre_c06_translation [CharZero K] (X : Mat N D K) (t : Vec D K) (hN : 0 < N) :
+    TapkeeVerif.pcaPre (translate X t) = TapkeeVerif.pcaPre X := by
+  have hn : (N : K) ≠ 0 := Nat.cast_ne_zero.mpr (Nat.pos_iff_ne_zero.mp hN)
+  have hmean : ∀ a, TapkeeVerif.computeMean (translate X t) a = TapkeeVerif.computeMean X a + t a := by
+    intro a
+    unfold TapkeeVerif.computeMean translate
+    rw [sumFin_add, sumFin_const]
+    field_simp
+  have hup : TapkeeVerif.covarianceUpper (translate X t) (TapkeeVerif.computeMean (translate X t))
+      = TapkeeVerif.covarianceUpper X (TapkeeVerif.computeMean X) := by
+    funext a b
+    unfold TapkeeVerif.covarianceUpper
+    by_cases hab : a ≤ b
+    · simp only [hab, if_true, hmean]
+      have : (sumFin N fun i => translate X t i a * translate X t i b)
+          = (sumFin N fun i => X i a * X i b) + t b * (sumFin N fun i => X i a) + t a * (sumFin N fun i => X i b)
+            + (N : K) * (t a * t b) := by
+        unfold translate
+        rw [← sumFin_mul_left, ← sumFin_mul_left, ← sumFin_const (n := N) (t a * t b), ← sumFin_add, ← sumFin_add,
+          ← sumFin_add]
+        exact sumFin_congr fun i => by ring
+      rw [this]
+      unfold TapkeeVerif.computeMean
+      field_simp
+      ring
+    · simp only [hab, if_false]
+  unfold TapkeeVerif.pcaPre TapkeeVerif.covarianceMatrix
+  rw [hup]
+
+/-- C04: every generated statement of `IsomapImplementation::embed` commutes with relabelling … -/
+theorem isomapStep_perm (π : Equiv.Perm (Fin n)) (A : Mat n n K) (s : Gen.Isomap.Step) :
+    IsomapPre.applyStep (relabel π A) s = relabel π (IsomapPre.applyStep A s) := by
+  cases s with
+  | square => rfl
+  | symmetrise => rfl
+  | scale num den => rfl
+  | center =>
+    have hc : ∀ B : Mat n n K, IsomapPre.centerMatrixIso B = Equivariance.centerMatrix B := by
+      intro B
+      funext i j
+      simp only [IsomapPre.centerMatrixIso, IsomapPre.colMeans, IsomapPre.grandMean, Equivariance.centerMatrix,
+        Equivariance.centerWith, Equivariance.colMean, Equivariance.grandMean, Nat.cast_mul]
+    show IsomapPre.centerMatrixIso (relabel π A) = relabel π (IsomapPre.centerMatrixIso A)
+    rw [hc, hc, centerMatrix_relabel]
+
+/-- … hence so does the matrix Isomap hands to the eigensolver, *whatever* the regenerated statement list is:
+    together with `dijkstra_perm` the whole Isomap pipeline after the neighbour search is order independent -/
+theorem isomapPre_perm (π : Equiv.Perm (Fin n)) (G : Mat n n K) :
+    IsomapPre.isomapPre (relabel π G) = relabel π (IsomapPre.isomapPre G) := by
+  unfold IsomapPre.isomapPre
+  generalize Gen.Isomap.isomapSteps = steps
+  induction steps generalizing G with
+  | nil => rfl
+  | cons s steps ih =>
+    rw [List.foldl_cons, List.foldl_cons, isomapStep_perm, ih]
+
+end stages
 
 end TapkeeVerif.C12b
